@@ -158,6 +158,37 @@ pub fn check(v: &View, vd: &mut Verdict) {
             }
         }
     }
+    // ... not even until the next publication: a subscriber whose last strong handle went during the
+    // run phase has stopped before the harness unregisters the broker
+    {
+        let n = v.actors.len();
+        let mut strong = vec![0i64; n];
+        let mut zero_at: Vec<Option<u64>> = vec![None; n];
+        for e in v.hist {
+            match &e.kind {
+                EvKind::HandleNew { actor, kind, .. } if kind.strong() => {
+                    strong[*actor] += 1;
+                    zero_at[*actor] = None;
+                }
+                EvKind::HandleDrop { actor, kind, .. } if kind.strong() => {
+                    strong[*actor] -= 1;
+                    if strong[*actor] == 0 {
+                        zero_at[*actor] = Some(e.stamp);
+                    }
+                }
+                _ => {}
+            }
+        }
+        let settle = v.phase(Phase::Settle);
+        for a in 0..n {
+            if let (Some(z), Some((end, _))) = (zero_at[a], v.actors[a].task_end) {
+                if z < settle && end > teardown && v.actors[a].stop_reqs.is_empty() {
+                    vd.class("last_drop_of_subscriber_in_run_phase");
+                    vd.fail("C09/subscriber_kept_alive_until_teardown", format!("actor {a}: its last strong handle was dropped at {z}, but it only stopped at {end}, after the broker had been unregistered at {teardown}"));
+                }
+            }
+        }
+    }
     if v.actors.iter().any(|a| a.task_end.is_some_and(|(s, _)| s < teardown)) {
         special = true;
         vd.class("subscriber_terminated");
